@@ -105,13 +105,13 @@ func c01Case(w *rt.W, st *c01State, y int64, m, d int, slow bool) {
 
 	{ // a caller-provided scratch buffer with room to spare (the usual way to avoid allocations)
 		o1, _ := date.DefaultFormatter(make([]byte, 0, 40), dt, 0)
-		o2, _ := date.DefaultFormatter(append(make([]byte, 0, 40), "ab"...), dt, date.FormatBasic)
+		o2, _ := date.DefaultFormatter(append(make([]byte, 0, 40), "2021-03-14 a-b "...), dt, date.FormatBasic)
 		w.Eval(2)
 		if string(o1) != wantE {
 			c01Fail(w, "out-formatter-spare-capacity", y, m, d, "DefaultFormatter(make([]byte,0,40),0)", string(o1), wantE)
 		}
-		if string(o2) != "ab"+wantB {
-			c01Fail(w, "out-formatter-spare-capacity", y, m, d, "DefaultFormatter(\"ab\" with spare capacity,FormatBasic)", string(o2), "ab"+wantB)
+		if string(o2) != "2021-03-14 a-b "+wantB {
+			c01Fail(w, "out-formatter-spare-capacity", y, m, d, "DefaultFormatter(\"2021-03-14 a-b \" with spare capacity,FormatBasic)", string(o2), "2021-03-14 a-b "+wantB)
 		}
 		// the text sits inside a larger record: the bytes after it belong to the caller
 		rec := append(append(make([]byte, 0, 64), wantE...), "|NEXT-FIELD"...)
@@ -131,10 +131,15 @@ func c01Case(w *rt.W, st *c01State, y int64, m, d int, slow bool) {
 		if string(pre) != "x="+wantE {
 			c01Fail(w, "out-formatter-prefix", y, m, d, "DefaultFormatter(prefix,0)", string(pre), "x="+wantE)
 		}
-		for _, vb := range []struct{ verb, want string }{{"%s", wantE}, {"%v", wantE}, {"%e", wantE}, {"%b", wantB}} {
+		// the type formats itself: flags, width and precision of the verb do not change the text
+		for _, vb := range []struct{ verb, want string }{{"%s", wantE}, {"%v", wantE}, {"%e", wantE}, {"%b", wantB},
+			{"%+v", wantE}, {"%+s", wantE}, {"%#v", wantE}, {"%-14s", wantE}, {"%014e", wantE}, {"% b", wantB}, {"%+b", wantB}, {"%.3s", wantE}, {"%20v", wantE}} {
 			if s := fmt.Sprintf(vb.verb, dt); s != vb.want {
 				c01Fail(w, "out-verb", y, m, d, "Sprintf "+vb.verb, s, vb.want)
 			}
+		}
+		if s := fmt.Sprintf("%+v", struct{ D date.Date }{dt}); s != "{D:"+wantE+"}" {
+			c01Fail(w, "out-verb", y, m, d, "Sprintf %+v of a struct holding the date", s, "{D:"+wantE+"}")
 		}
 		jb, err := json.Marshal(dt)
 		if err != nil || string(jb) != `"`+wantE+`"` {
@@ -175,8 +180,11 @@ func c01Case(w *rt.W, st *c01State, y int64, m, d int, slow bool) {
 		check("DefaultParser[string]", g, err)
 		g, err = date.DefaultParser([]byte(text), 0)
 		check("DefaultParser[[]byte]", g, err)
-		var u date.Date
+		u := date.New(1234, 5, 6) // the receiver already holds another date
 		err = u.UnmarshalText([]byte(text))
+		if err != nil {
+			u = date.Date{}
+		}
 		check("UnmarshalText", u, err)
 		if slow {
 			var j date.Date
@@ -207,6 +215,21 @@ func c01Case(w *rt.W, st *c01State, y int64, m, d int, slow bool) {
 			w.Sample("full-path-cross-product", map[string]any{"date": wantE, "basic": wantB, "limit": limit})
 		}
 	}
+}
+
+func init() {
+	dates := [][3]int{{1, 1, 1}, {0, 1, 1}, {2000, 2, 29}, {9999, 12, 31}, {1582, 10, 10}, {2021, 6, 15}, {1970, 1, 1}, {4, 2, 29}}
+	coldCases["C01"] = coldGeneric([]func(){
+		func() { _, _ = date.DefaultParser("0001-01-01", 0) },
+		func() { _ = date.Date{}.String() },
+		func() { var d date.Date; _ = d.UnmarshalBinary([]byte{1, 0, 0, 0, 1, 1, 1}) },
+		func() { _, _ = date.DefaultParser("00000101", date.RuleDisableBasic) },
+		func() { _, _ = date.Date{}.MarshalText() },
+		func() { _ = fmt.Sprintf("%b", date.New(2024, 2, 29)) },
+		func() {},
+	}, func(w *rt.W, k int) {
+		c01Case(w, &c01State{}, int64(dates[k][0]), dates[k][1], dates[k][2], true)
+	}, len(dates))
 }
 
 func runC01(c *rt.Ctx) {
@@ -338,7 +361,9 @@ func runC01(c *rt.Ctx) {
 	// configuration: a package-level Formatter that fails; String and the verbs fall back to DefaultFormatter
 	{
 		oldF := date.Formatter
-		date.Formatter = func(buf []byte, d date.Date, f date.Format) ([]byte, error) { return nil, errors.New("formatter refuses") }
+		date.Formatter = func(buf []byte, d date.Date, f date.Format) ([]byte, error) {
+			return nil, errors.New("formatter refuses")
+		}
 		c.Serial("failing-formatter", func(w *rt.W) {
 			for _, ymd := range [][3]int{{1, 1, 1}, {0, 1, 1}, {2000, 2, 29}, {9999, 12, 31}, {476, 9, 4}, {2021, 10, 9}} {
 				dt := date.New(ymd[0], date.Month(ymd[1]), ymd[2])
@@ -388,6 +413,7 @@ func runC01(c *rt.Ctx) {
 			check("json.Unmarshal", j, err)
 		})
 	}
+	coldStart(c, "C01", 14)
 	c.Extra("local_zones", len(hostileZones()))
 	c.Require("local-zone-sweep", int64(len(hostileZones())))
 	for _, cl := range []string{"leap-day", "month-end", "dec-31", "jan-1", "year-0000", "year-9999", "full-path-cross-product",
